@@ -215,6 +215,9 @@ def enum_paths(ctx, f, may_raise=None, unroll=2, body=None, max_paths=20000):
   P = Paths(may_raise, unroll=unroll, max_paths=max_paths)
   if body is not None:
     res = [(tuple(ev), ex) for ev, ex in P.block(body)]
+    if P.prune:
+      from .paths import feasible
+      res = [p for p in res if feasible(p[0])]
   else:
     res = P.of_function(f.node)
   ctx.count_paths(len(res))
